@@ -70,7 +70,7 @@ def run(ctx):
     MW = 2 if ctx.quick() else 3
     NT = int(os.environ.get("VERIF_C14_NT", NT)); MW = int(os.environ.get("VERIF_C14_MW", MW))
     f1 = lexcheck.run_tokens(ctx, res, NT)
-    f2 = lexcheck.run_whole(ctx, res, MW)
+    f2 = lexcheck.run_whole(ctx, res, MW, anchors=(['//', '/*', '@a', 'pragma ', '#pragma ', '"0', "'a", '0x', '1e', 'OPENQASM 3'] if ctx.quick() else lexcheck.ANCHORS), K=1 if ctx.quick() else 2)
     triage(ctx, res, f1)
     # in the whole-string harness, missing-diagnostic violations belong to C11; C14 keeps the structural ones
     f2 = {k: v for k, v in f2.items() if "without a lexical diagnostic" not in k[0]}
